@@ -11,3 +11,10 @@ prop("C04", level="proof", runtime=True,
      not_decided=["Archive.truncate / extend / __iadd__ clients: see functions_under_contract for what is covered"])
 prop("C20", level="proof", runtime=True,
      assumptions=["A1: the subtraction in |a_i - b_i| < 1e-10 is real subtraction"], not_decided=[])
+prop("C18", level="proof", runtime=True,
+     assumptions=["particles of one batch have pairwise distinct feature dictionaries, vector lists and velocity lists "
+                  "(true for CopySelector output; PSOGA appends two offspring that SHARE the feature dict of their parents - "
+                  "that aliasing case is outside the precondition and therefore not covered)",
+                  "A1: velocity formula treated as an arbitrary real; clamp comparisons are exact",
+                  "lb <= ub for every parameter"],
+     not_decided=["update_global_best (bounded leader set) depends on the crowding_distance / sorting contracts: see evidence"])
